@@ -15,7 +15,8 @@ func DecodeURI(uriString string) (bodySize int, uri string, tag string, err erro
 		err = ErrAmmoFormat
 	} else {
 		bodySize, err = strconv.Atoi(parts[0])
-		if err != nil {
+		if err != nil || bodySize < 0 {
+			bodySize = 0
 			err = ErrWrongSize
 			return
 		}
